@@ -16,6 +16,7 @@
 
 use std::{cmp, fmt, thread};
 use std::fs::{self, canonicalize, create_dir_all, read_link, File, Metadata};
+use std::io::ErrorKind;
 use std::path::{Path, PathBuf};
 use std::sync::Arc;
 
@@ -54,6 +55,13 @@ impl CopyHandle {
     pub fn new(from: &Path, to: &Path, config: &Arc<Config>, updates: &Arc<dyn StatusUpdater>) -> Result<CopyHandle> {
         let infd = File::open(from)?;
         let metadata = infd.metadata()?;
+
+        // Never open (and thereby truncate) or rename the source
+        // itself: the destination can designate it through another
+        // spelling, a symlink or a hard link.
+        if is_same_inode(&metadata, to)? {
+            return Err(XcpError::InvalidDestination("Source and destination are the same file.").into());
+        }
 
         if needs_backup(to, config)? {
             let backup = get_backup_path(to)?;
@@ -270,6 +278,16 @@ pub fn tree_walker(
     debug!("Walk-worker finished: {:?}", thread::current().id());
 
     Ok(())
+}
+
+/// Whether `path` resolves to the file described by `meta`.
+fn is_same_inode(meta: &Metadata, path: &Path) -> Result<bool> {
+    use std::os::unix::fs::MetadataExt;
+    match path.metadata() {
+        Ok(other) => Ok(other.dev() == meta.dev() && other.ino() == meta.ino()),
+        Err(e) if e.kind() == ErrorKind::NotFound => Ok(false),
+        Err(e) => Err(e.into()),
+    }
 }
 
 fn empty_path(path: &Path) -> bool {
